@@ -1061,18 +1061,23 @@ func (d *indexData) newMatchTree(q query.Q, opt matchTreeOpt) (matchTree, error)
 		}, err
 
 	case *query.Type:
-		if s.Type != query.TypeFileName {
-			break
-		}
+		switch s.Type {
+		case query.TypeFileMatch:
+			// File matches are the default result type.
+			return d.newMatchTree(s.Child, opt)
+		case query.TypeFileName:
+			ct, err := d.newMatchTree(s.Child, opt)
+			if err != nil {
+				return nil, err
+			}
 
-		ct, err := d.newMatchTree(s.Child, opt)
-		if err != nil {
-			return nil, err
+			return &fileNameMatchTree{
+				child: ct,
+			}, nil
 		}
-
-		return &fileNameMatchTree{
-			child: ct,
-		}, nil
+		// type:repo needs cross-shard evaluation and is replaced before a query
+		// reaches a shard (see search.typeRepoSearcher).
+		return nil, fmt.Errorf("type:repo sub-query %s must be evaluated before searching a shard", s)
 
 	case *query.Boost:
 		ct, err := d.newMatchTree(s.Child, opt)
